@@ -32,7 +32,7 @@ ASSUMPTIONS = [
     "solutions compared through clade-based keys (new node names are not compared)",
     "coherent cost region (F-COHERENCE)",
 ]
-BUDGET = {"quick": 400, "thorough": 3300}
+BUDGET = {"quick": 900, "thorough": 3300}
 
 
 def worker_init():
